@@ -279,3 +279,30 @@ Fixpoint reaches (g : graph) (fuel : nat) (from target : nat) : bool :=
   end.
 Definition acyclic_b (g : graph) : bool :=
   forallb (fun i => negb (reaches g (length g) i i)) (seq 0 (length g)).
+
+(* ---------------- certificate of well-formedness: a topological order ---------------- *)
+(* index of the first occurrence of x in l (length l when absent) *)
+Fixpoint index_of (x : nat) (l : list nat) : nat :=
+  match l with [] => 0 | y :: r => if Nat.eqb x y then 0 else S (index_of x r) end.
+
+(* every task appears in the order, and each dependency of a task appears strictly before it *)
+Fixpoint topo_ok_from (g : graph) (before : list nat) (order : list nat) : bool :=
+  match order with
+  | [] => true
+  | x :: r => forallb (fun d => mem d before) (all_deps (get_task g x)) && negb (mem x before) &&
+              topo_ok_from g (x :: before) r
+  end.
+Definition wf_b (g : graph) (order : list nat) : bool :=
+  closed_b g && topo_ok_from g [] order && forallb (fun i => mem i order) (seq 0 (length g)).
+
+(* Kahn's algorithm with fuel: repeatedly take the first task all of whose dependencies are done *)
+Fixpoint toposort_go (g : graph) (fuel : nat) (todo done_rev : list nat) : list nat :=
+  match fuel with
+  | O => rev done_rev
+  | S f =>
+      match find (fun i => forallb (fun d => mem d done_rev) (all_deps (get_task g i))) todo with
+      | Some i => toposort_go g f (filter (fun j => negb (Nat.eqb j i)) todo) (i :: done_rev)
+      | None => rev done_rev
+      end
+  end.
+Definition toposort (g : graph) : list nat := toposort_go g (length g) (seq 0 (length g)) [].
